@@ -10,7 +10,8 @@
 (* Relations are numbered by bit masks over the pair sequence, so that a   *)
 (* run can emit a slice Lo..Hi (step Step) of the space.                   *)
 (*   Fam = "rel"    every relation (with self-loops iff Diag); Full: every *)
-(*                  dup and nt variant, else one variant per relation      *)
+(*                  dup and nt variant; Half: no/one dup x nt; else one    *)
+(*                  variant per relation                                   *)
 (*   Fam = "loop"   every irreflexive relation plus one self-loop          *)
 (*   Fam = "mixed"  every irreflexive relation with one constraint of      *)
 (*                  another kind; Full: each deviation of each ordered     *)
@@ -18,7 +19,7 @@
 (*   Fam = "devs"   the deviations alone (empty relation)                  *)
 (***************************************************************************)
 EXTENDS HTNOrder, Json, IOUtils, SequencesExt
-CONSTANTS Fam, Diag, Full, Lo, Hi, Step, Rounds
+CONSTANTS Fam, Diag, Full, Half, Lo, Hi, Step, Rounds
 
 Pairs == IF Diag THEN Task \X Task ELSE {q \in Task \X Task : q[1] # q[2]}
 PairSeq == TLCEval(SetToSeq(Pairs))
@@ -48,8 +49,10 @@ Case(fam, p, o, dup, nt) == [fam |-> fam, n |-> N, p |-> p, o |-> o, dup |-> dup
 RelCases ==
    IF Full
    THEN UNION {LET p == RelSeq(m) IN {Case("rel", p, <<>>, d, t) : d \in 0..Len(p), t \in BOOLEAN} : m \in Masks}
-   ELSE {LET p == RelSeq(m) IN
-         Case("rel", p, <<>>, IF m % 3 = 0 /\ Len(p) > 0 THEN 1 + (m % Len(p)) ELSE 0, m % 4 = 1) : m \in Masks}
+   ELSE UNION {LET p == RelSeq(m)
+                   d == IF Len(p) > 0 THEN 1 + (m % Len(p)) ELSE 0
+               IN IF Half THEN {Case("rel", p, <<>>, x, t) : x \in {0, d}, t \in BOOLEAN}
+                  ELSE {Case("rel", p, <<>>, IF m % 3 = 0 THEN d ELSE 0, m % 4 = 1)} : m \in Masks}
 LoopCases == {Case("loop", RelSeq(m) \o <<<<1 + (m % N), 1 + (m % N)>>>>, <<>>, 0, FALSE) : m \in Masks}
 MixedCases ==
    IF Full
